@@ -146,7 +146,14 @@ func oracle(cx *lib.Ctx, src []byte, origin string) (bool, bool) {
 
 	var f *hclwrite.File
 	var wdiags hcl.Diagnostics
-	if !cx.Guard("parseconfig", string(src), func() { f, wdiags = hclwrite.ParseConfig(src, "", hcl.InitialPos) }) {
+	// the buffer handed to the loader is the caller's and is recycled right after the call
+	loadBuf := append([]byte{}, src...)
+	if !cx.Guard("parseconfig", string(src), func() {
+		f, wdiags = hclwrite.ParseConfig(loadBuf, "", hcl.InitialPos)
+		for i := range loadBuf {
+			loadBuf[i] = "#{}=\"\n x"[i%8]
+		}
+	}) {
 		return true, true
 	}
 	if wdiags.HasErrors() || f == nil {
@@ -417,6 +424,66 @@ func compareVariables(cs *caseState, na *hclsyntax.Attribute, wa *hclwrite.Attri
 	}
 }
 
+// handVariables: sources with the variable references they contain, written down by hand (root names in
+// source order): the tree must expose exactly these, whatever position the reference stands in — also a
+// traversal written without parentheses as an object key, which only evaluation rejects as ambiguous.
+var handVariables = []struct {
+	src   string
+	roots []string
+}{
+	{"x = { aws.east = gcp.west }\n", []string{"aws", "gcp"}},
+	{"x = { c[0] = d, e.f.g = h[1].i }\n", []string{"c", "d", "e", "h"}},
+	{"x = [{ k.l = 1 }, { (m.n) = o.p }]\n", []string{"k", "m", "o"}},
+	{"x = { a = b, \"c\" = d, (e) = f, g.h = i, null = j, for_ = k }\n", []string{"b", "d", "e", "f", "g", "i", "j", "k"}},
+	{"x = { a.b = c.d\n e[\"k\"] = f }\ny {\n z = { p.q = r }\n}\n", []string{"a", "c", "e", "f", "p", "r"}},
+	{"x = f({ a.b = 1 }, [for v in w : { v.k = u }])\n", []string{"a", "w", "u"}},
+	{"x = \"${ { s.t = 1 } }\"\n", []string{"s"}},
+	{"x = foo[bar.baz][qux]\n", []string{"foo", "bar", "qux"}},
+	{"x = a ? b.c : d[e]\n", []string{"a", "b", "d", "e"}},
+}
+
+func checkHandVariables(cx *lib.Ctx) {
+	for _, hv := range handVariables {
+		cx.Guard("hand-variables", hv.src, func() {
+			f, diags := hclwrite.ParseConfig([]byte(hv.src), "", hcl.InitialPos)
+			if diags.HasErrors() {
+				cx.Res.Fail(lib.Failure{Kind: "oracle", Key: "load-error:hand-variables", Desc: diags.Error(), Input: hv.src})
+				return
+			}
+			var got []string
+			var walk func(b *hclwrite.Body)
+			walk = func(b *hclwrite.Body) {
+				type na struct {
+					n string
+					a *hclwrite.Attribute
+				}
+				var as []na
+				for n, a := range b.Attributes() {
+					as = append(as, na{n, a})
+				}
+				sort.Slice(as, func(i, j int) bool { return as[i].n < as[j].n })
+				for _, x := range as {
+					for _, t := range x.a.Expr().Variables() {
+						toks := t.BuildTokens(nil)
+						if len(toks) > 0 {
+							got = append(got, string(toks[0].Bytes))
+						}
+					}
+				}
+				for _, blk := range b.Blocks() {
+					walk(blk.Body())
+				}
+			}
+			walk(f.Body())
+			cx.Res.Count("hand-variables")
+			cx.Res.Case("hand-variables|"+hv.src, true)
+			if strings.Join(got, ",") != strings.Join(hv.roots, ",") {
+				cx.Res.Fail(lib.Failure{Kind: "oracle", Key: "variable-reference-not-exposed:hand-written-expectation", Desc: "Expr().Variables() exposes the roots [" + strings.Join(got, ",") + "], the source contains [" + strings.Join(hv.roots, ",") + "]", Input: hv.src})
+			}
+		})
+	}
+}
+
 // handCorpus: sources that exercise a rule of the loader or once exposed a problem.
 var handCorpus = []string{
 	"",
@@ -448,6 +515,15 @@ var handCorpus = []string{
 	"a = { (foo.bar) = baz[0], \"q\" : x.y\n z = w }\n",
 	"a = f(foo.a, [b.c, {d = e.f}]...)\n",
 	"a = foo[bar[baz[0]]]\n",
+	// object keys that are traversals written without parentheses (parse fine; ambiguous only when evaluated)
+	"x = { aws.east = aws.west }\n",
+	"x = { c[0] = d, e.f.g = h[1].i }\n",
+	"x = [{ k.l = 1 }, { (m.n) = o.p }]\n",
+	"x = { a.b = c.d\n e[\"k\"] = f }\n",
+	// a literal string index key spelled as a heredoc
+	"x = foo[<<EOT\nbar\nEOT\n].baz\n",
+	"x = foo[<<-EOT\n  bar\n  EOT\n][0]\n",
+	"y = [a[<<K\nk\nK\n], b]\n",
 	"a = foo[(1)].b\n",
 	"a = (foo).bar[0]\n",
 	"a = foo /* c */ . /* d */ bar\n",
@@ -471,6 +547,7 @@ func runC10(cx *lib.Ctx) {
 	}
 	res.Rule = "body trees over the full expression grammar with every traversal shape (attr, string/number/bool/null index, legacy index, full and attribute splat) placed in every expression position (systematic position x shape products, nested up to two further positions, plus random trees with traversals sprinkled over the variable leaves), rendered under random layouts (spacing, inline / line / lead / detached / block comments, CRLF, tabs, optional newlines, heredocs, missing final newline), checked with the real lexer to denote the intended tokens; plus byte mutations that still parse and an exhaustive enumeration of short traversal-token windows; non-trivial = body has at least one item; distinct by source text"
 
+	checkHandVariables(cx)
 	for _, s := range handCorpus {
 		_, nt := oracle(cx, []byte(s), "corpus")
 		res.Case(s, nt)
